@@ -7,6 +7,7 @@
 //	c01 one    -seed S -index I [-uni J] [-knobs K] [-exact 1] [-v 1]
 //	c01 replay -in FILE|DIR [-out cases] [-replaydir D] [-v 1]   (self-contained replay / corpus files)
 //	c01 shrink -seed S -index I [-uni J] [-knobs K]
+//	c01 probe  -in FILE [-op 'query text'] [-vars JSON] [-plan 1]   (hand-narrowing on a stored configuration)
 package main
 
 import (
@@ -403,6 +404,8 @@ func main() {
 		cmdReplay(a)
 	case "shrink":
 		cmdShrink(a)
+	case "probe":
+		cmdProbe(a)
 	default:
 		fmt.Println("unknown command")
 		os.Exit(2)
